@@ -61,7 +61,7 @@ def sha_files(paths):
 
 
 MODULE_DEPS = {
-    "MCBoard.tla": ["Geometry.tla", "Rules.tla", "RulesImpl.tla", "Text.tla", "MCBoard.tla"],
+    "MCBoard.tla": ["Geometry.tla", "Rules.tla", "RulesImpl.tla", "Text.tla", "San.tla", "MCBoard.tla"],
     "MCGame.tla": ["Geometry.tla", "Rules.tla", "Text.tla", "Game.tla", "MCGame.tla"],
     "MCIter.tla": ["MoveGenIter.tla", "MoveGenImpl.tla", "MCIter.tla"],
     "MCCache.tla": ["CacheTable.tla", "MCCache.tla"],
@@ -70,9 +70,12 @@ MODULE_DEPS = {
 }
 
 
-def spec_hash(module=None):
-    """Hash of the TLA+ text a model depends on (all modules if unknown)."""
+def spec_hash(module=None, constants=None):
+    """Hash of the TLA+ text a model depends on (all modules if unknown).  MCBoard evaluates San.tla only when
+    the model prints SAN tables (San = TRUE), so other board models do not depend on its text."""
     deps = MODULE_DEPS.get(module)
+    if deps and module == "MCBoard.tla" and constants is not None and not constants.get("San"):
+        deps = [d for d in deps if d != "San.tla"]
     files = [os.path.join(SPEC, d) for d in deps] if deps else glob.glob(os.path.join(SPEC, "*.tla"))
     return sha_files(files)[:16]
 
@@ -222,7 +225,7 @@ def generate_records(name, module, constants, mode, outpath, timeout, sim=None, 
                         % (name, module, rc, summ["error"]))
     meta = {"name": name, "module": module, "constants": constants, "mode": mode, "sim": sim, "records": nrec,
             "tlc_states_generated": summ["generated"], "tlc_distinct_states": summ["distinct"],
-            "wall_s": round(time.time() - t0, 1), "spec_hash": spec_hash(module)}
+            "wall_s": round(time.time() - t0, 1), "spec_hash": spec_hash(module, constants)}
     with open(outpath + ".meta.json", "w") as f:
         json.dump(meta, f)
     os.rename(tmpout, outpath)
@@ -234,7 +237,7 @@ def recordset(name, module, constants, mode="bfs", sim=None, timeout=3600, tag="
     """Path of the (cached) TLC output for one model; generated on first use.
     Cache key: spec text + model parameters (+ simulation seed).  Nothing of /repo enters it."""
     ensure_dirs()
-    key = hashlib.sha256(json.dumps([spec_hash(module), module, constants, mode, sim, tag, list(cfg_extra)], sort_keys=True).encode()).hexdigest()[:12]
+    key = hashlib.sha256(json.dumps([spec_hash(module, constants), module, constants, mode, sim, tag, list(cfg_extra)], sort_keys=True).encode()).hexdigest()[:12]
     path = os.path.join(RECS, "%s-%s.gz" % (name, key))
     with open(os.path.join(RECS, ".%s.lock" % name), "w") as lk:
         fcntl.flock(lk, fcntl.LOCK_EX)
